@@ -1,4 +1,5 @@
 import datetime
+import re
 import dateutil
 import numpy
 import pandas
@@ -246,15 +247,18 @@ class Text(ExcelType):
     native_types = (str,)
     sort_precedence = 1
 
+    # What reads as a number: digits with an optional sign, fraction and
+    # exponent, possibly surrounded by blanks. (Python's int() and float()
+    # also take '1_000', 'nan', 'infinity' and non-ASCII digits.)
+    numeric_text = re.compile(
+        r'\s*[+-]?([0-9]+\.?[0-9]*|\.[0-9]+)([eE][+-]?[0-9]+)?\s*$')
+
     def __number__(self):
-        try:
-            return int(self.value)
-        except ValueError:
-            pass
-        try:
-            return float(self.value)
-        except ValueError:
-            pass
+        if self.numeric_text.match(self.value):
+            try:
+                return int(self.value)
+            except ValueError:
+                return float(self.value)
         # For arithmetic, boolean text is actually interpreted.
         try:
             return int(self.__bool__(by_content_only=True))
@@ -281,11 +285,16 @@ class Text(ExcelType):
         return Boolean(self.__bool__(by_content_only=True))
 
     def __datetime__(self):
+        if self.numeric_text.match(self.value):
+            try:
+                return utils.number_to_datetime(float(self.value))
+            except (ValueError, OverflowError):
+                pass
         try:
-            return utils.number_to_datetime(float(self.value))
-        except (ValueError, OverflowError):
-            pass
-        try:
+            # A date has a day, a year or a time: there is no date without
+            # a digit ("may", "sat" and "mon" are just words).
+            if not any(char in '0123456789' for char in self.value):
+                raise ValueError(self.value)
             value = dateutil.parser.parse(self.value)
         except (ValueError, OverflowError):
             pass
